@@ -237,6 +237,35 @@ def fault_convert(truth_i, pa, pb, j, active):
         return _ok_after(files, ref.files, fs.files, active, fs.log)
 
 
+def fault_format(truth_i, pa, pb, j, active):
+    """the j-th call of the code formatter (black) raises: an error while rendering one target"""
+    truth_i, pa, pb, j = realize((truth_i, pa, pb, j))
+    with untraced():
+        truth = KINDS[truth_i]
+        files = _project(truth, pa, pb)
+        ref = FS(files)
+        if _run(ref, truth) is not None:
+            return False
+        calls = [0]
+        real = doctrans.emit.format_str
+
+        def failing(*a, **kw):
+            calls[0] += 1
+            if calls[0] - 1 == j:
+                raise RuntimeError("injected formatter fault at call %d" % j)
+            return real(*a, **kw)
+
+        doctrans.emit.format_str = failing
+        fs = FS(files)
+        try:
+            err = _run(fs, truth)
+        finally:
+            doctrans.emit.format_str = real
+        if err is None:
+            return j >= calls[0]
+        return _ok_after(files, ref.files, fs.files, (), fs.log)  # no tolerance: rendering happens before any file is opened
+
+
 def fault_props(k, partial, active):
     k, partial = realize((k, partial))
     with untraced():
@@ -293,6 +322,13 @@ def obligations(tier, seed):
                       pre=["0 <= pa <= 2 and 0 <= pb <= 2", "0 <= j <= 4"], body="H.fault_convert(%d, pa, pb, j, {ACTIVE})" % t,
                       witness=(2, 2, 0), kind="S",
                       bounds="truth %s; the j-th emitter call raises, j in 0..4 (symbolic); pre-states as above" % KINDS[t],
+                      timeout=200 if tier == "quick" else 600, path_timeout=120, funcs=FUNCS))
+    for t in range(3):
+        obs.append(Ob(name="fault_format_%s" % KINDS[t], params=[("pa", "int"), ("pb", "int"), ("j", "int")],
+                      pre=["0 <= pa <= 2 and 0 <= pb <= 2", "0 <= j <= 3"], body="H.fault_format(%d, pa, pb, j, {ACTIVE})" % t,
+                      witness=(0, 0, 0), kind="S",
+                      bounds="truth %s; the j-th call of black's format_str raises, j in 0..3 (symbolic); pre-states as above; NO tolerance "
+                      "(the source is fully rendered and formatted before the file is opened)" % KINDS[t],
                       timeout=200 if tier == "quick" else 600, path_timeout=120, funcs=FUNCS))
     obs.append(Ob(name="fault_sync_properties", params=[("k", "int"), ("partial", "bool")], pre=["0 <= k <= 8"],
                   body="H.fault_props(k, partial, {ACTIVE})", witness=(0, False), kind="S",
